@@ -3,7 +3,7 @@
 //@ assume: decided here (C18, sequential wrapper level): Batch::put / delete change exactly the addressed key of exactly the addressed database in THIS batch's write transaction (an unknown database key is an error and changes nothing); Batch::exists / get_with read THIS batch's own view -- writes made in the batch are visible inside it -- through a nested read transaction; Store::exists / get_with read through a transaction the caller supplies / a fresh read transaction over the COMMITTED state; Batch::child is a nested write transaction over this batch's view, holds no transaction counter of its own and refers to the same store; Batch::commit commits exactly this batch's transaction and reports its outcome; Batch::new opens its write transaction only after entering the transaction gate and keeps the counter for its lifetime; Store::batch runs the resize check before opening the batch.
 //@ assume: Batch::get_ser: T6: the decoding closure `|_, mut data| match ser::deserialize(&mut data, self.protocol_version(), d) { Ok(res) => Ok(res), Err(e) => Err(From::from(e)) }` is re-written with typed parameters, the protocol version read before the call and a spliced contract saying what it must compute (the bytes it is handed, decoded with THAT version and mode); ser::deserialize over `&mut &[u8]` => deserialize_slice over the slice; `From::from(e)` => Error::SerErr(e). What is decided: the key / database handed to get_with, the store's version, and the DEFAULT mode (full) when none is asked for
 //@ assumed_items: 17
-//@ fns: Store::get_db, Store::get_with, Store::exists, Store::batch, Batch::new, Batch::put, Batch::put_ser_with_version, Batch::put_ser, Batch::get_ser, Batch::protocol_version, Batch::get_with, Batch::exists, Batch::delete, Batch::commit, Batch::child
+//@ fns: Store::get_db, Store::get_ser, Store::get_with, Store::exists, Store::batch, Batch::new, Batch::put, Batch::put_ser_with_version, Batch::put_ser, Batch::get_ser, Batch::protocol_version, Batch::get_with, Batch::exists, Batch::delete, Batch::commit, Batch::child
 pub enum Error { NotFoundErr(String), LmdbErr(String), SerErr(SerError), FileErr(String), OtherErr(String) }
 #[verifier::external_body]
 pub struct SerError { _p: u8 }
@@ -125,6 +125,16 @@ impl Store {
 //@+    r matches Ok(None) ==> !read.view@.contains_key((sp_dbid(db_key), key@)),
 //@+    r matches Ok(Some(t)) ==> read.view@.contains_key((sp_dbid(db_key), key@))
 //@+        && exists|v: &[u8]| v@ == read.view@[(sp_dbid(db_key), key@)] && #[trigger] deserialize.ensures((key, v), Ok(t)),
+//@ end
+//@ extract store/src/lmdb.rs :: impl Store::get_ser
+//@   rewrite `Ok(read) => self.get_with(db_key, key, &read, |_, mut data| {\n\t\t\t\t\tser::deserialize(&mut data, self.protocol_version(), d).map_err(From::from)\n\t\t\t\t}),` => `Ok(read) => { let pv = self.protocol_version(); self.get_with(db_key, key, &read, |_k: &[u8], data: &[u8]| -> (cr: Result<T, Error>) ensures cr matches Ok(t) ==> T::sp_decoded(data@, pv, d, t) {\n\t\t\t\t\tmatch ser::deserialize_slice(data, pv, d) { Ok(res) => Ok(res), Err(e) => Err(Error::SerErr(e)) }\n\t\t\t\t}) },`
+//@   requires:
+//@+    sp_store_ok(*self),
+//@   ensures:
+//@+    // a fresh read transaction: decodes the COMMITTED value of the key, with the store's protocol version and the mode asked for (default: full)
+//@+    r matches Ok(None) ==> !sp_committed(self.env).contains_key((sp_dbid(db_key), key@)),
+//@+    r matches Ok(Some(t)) ==> sp_committed(self.env).contains_key((sp_dbid(db_key), key@))
+//@+        && T::sp_decoded(sp_committed(self.env)[(sp_dbid(db_key), key@)], self.version, (match deser_mode { Some(m) => m, None => ser::DeserializationMode::Full }), t),
 //@ end
 //@ extract store/src/lmdb.rs :: impl Store::exists
 //@   requires:
